@@ -431,7 +431,7 @@ def run(ctx):
     fails = validate(traces, ctx, "Trace_Api")
     report(traces, rqs, fails, ctx)
     # 5. binding self-test
-    ctx.extra["binding_selftest"] = selftest(traces, [f[0] for f in fails])
+    ctx.selftest(selftest, traces, [f[0] for f in fails])
     ctx.rule = ("requests = every (endpoint in {vincinv, vincdir}) x (from_angle_type, to_angle_type in {dd, dms, absent}^2) "
                 "x class of numbers (vincinv: hemisphere x side x 9 geometries incl. meridian/parallel/equator/+-180/"
                 "coincident/polar; vincdir: hemisphere x side x 9 azimuth classes incl. cardinals and 360 x 4 distance "
